@@ -49,6 +49,10 @@ class Col:
                 return self.scalar(t.args[0])  # 0 <= i < T
             if t.op == "neg":
                 return -self.scalar(t.args[0])
+            if t.op in ("py_max", "py_min") and t.args:
+                items = t.args[0] if len(t.args) == 1 and isinstance(t.args[0], (tuple, list)) else t.args
+                vals = [self.scalar(x) for x in items]
+                return (sp.Max if t.op == "py_max" else sp.Min)(*vals)
             if t.op in ("py_ceil", "py_floor", "py_round", "py_int") and t.args:
                 # a Python-level count derived from other scalars (ceil(maturity / dt), ...): an uninterpreted function of its argument -
                 # it is NOT the grid length T read from the buffer, so identities that need T leave a residual
